@@ -226,4 +226,114 @@ example : UART_WF { uartwords := [Word.setPayload (Word.fresh (.ptp 5 999999999)
   rcases hw with h | h <;> subst h <;>
     simp [Word_WF, Word_Fits, Ipts_WF, uartProtoIpts, iptsOfSource, TS_CH4, TS_IEEE1558, sameKind, Word.fresh, Word.setPayload]
 
+/-! ### review additions (rev1-C04) -/
+
+/-- `UARTWord_roundtrip` with the helper `norm` unfolded: time stamp, parity-error bit, sub-channel and
+    data bytes come back, `datalength` is the number of data bytes (whatever the caller had stored in
+    that attribute), the byte-order option is the decoder's own -/
+theorem UARTWord_roundtrip_fields (w t : Word) (rest : Bytes) (h : Word_WF w) (hk : sameKind t.ipts w.ipts)
+    (he : t.data_endianness = w.data_endianness) :
+    ∃ b, w.pack = .ok b ∧ (Word.unpack t (b ++ rest)).2 = .ok b.length ∧
+      (Word.unpack t (b ++ rest)).1.ipts = w.ipts ∧ (Word.unpack t (b ++ rest)).1.parity_error = w.parity_error ∧
+      (Word.unpack t (b ++ rest)).1.subchannel = w.subchannel ∧ (Word.unpack t (b ++ rest)).1.payload = w.payload ∧
+      (Word.unpack t (b ++ rest)).1.datalength = some w.payload.length ∧
+      (Word.unpack t (b ++ rest)).1.data_endianness = t.data_endianness := by
+  obtain ⟨b, h1, h2, _⟩ := UARTWord_roundtrip w t rest h hk he
+  exact ⟨b, h1, by rw [h2], by rw [h2]; rfl, by rw [h2]; rfl, by rw [h2]; rfl, by rw [h2]; rfl, by rw [h2]; rfl,
+    by rw [h2]; exact he.symm⟩
+
+/-- the packet layout with every word in its declarative form (`UART_pack_layout` is phrased with the
+    helper `wordBytes`; composing with `UARTWord_pack_layout` removes it from the statement) -/
+theorem UART_pack_layout_spec (p : Packet) (h : UART_WF p) :
+    p.pack = .ok (Spec.Ch11.uartPacket p.ipts_source.isSome (p.uartwords.map fun w =>
+      Spec.Ch11.uartWord (toSpec w.ipts) w.parity_error w.subchannel w.payload
+        (decide (p.data_endianness = ENDIAN_LITTLE)))) := by
+  have e : p.uartwords.map wordBytes = p.uartwords.map (fun w =>
+      Spec.Ch11.uartWord (toSpec w.ipts) w.parity_error w.subchannel w.payload
+        (decide (p.data_endianness = ENDIAN_LITTLE))) := by
+    apply List.map_congr_left
+    intro w hw
+    have h1 := Word_pack_eq w (h.1 w hw).1.1
+    have h2 := UARTWord_pack_layout w (h.1 w hw).1.1
+    rw [h1, (h.1 w hw).2.2] at h2
+    exact Except.ok.inj h2
+  rw [← e]
+  exact UART_pack_layout p h
+
+/-- `UART_roundtrip` with `norm` unfolded: word by word and in order the same time stamps, parity
+    bits, sub-channels and data bytes; every decoded `datalength` is the size of its data; the two
+    codec options are the decoder's own -/
+theorem UART_roundtrip_fields (p t : Packet) (h : UART_WF p) (ho : t.ipts_source = p.ipts_source)
+    (he : t.data_endianness = p.data_endianness) :
+    ∃ b, p.pack = .ok b ∧ (Packet.unpack t b).2 = .ok () ∧
+      (Packet.unpack t b).1.uartwords.map (fun w => (w.ipts, w.parity_error, w.subchannel, w.payload)) =
+        p.uartwords.map (fun w => (w.ipts, w.parity_error, w.subchannel, w.payload)) ∧
+      (∀ w ∈ (Packet.unpack t b).1.uartwords, w.datalength = some w.payload.length) ∧
+      (Packet.unpack t b).1.ipts_source = t.ipts_source ∧ (Packet.unpack t b).1.data_endianness = t.data_endianness := by
+  obtain ⟨b, h1, h2, _⟩ := UART_roundtrip p t h ho he
+  refine ⟨b, h1, by rw [h2], ?_, ?_, by rw [h2], by rw [h2]⟩
+  · rw [h2]
+    simp [List.map_map, Function.comp_def, norm]
+  · rw [h2]
+    intro w hw
+    obtain ⟨x, _, rfl⟩ := List.mem_map.mp hw
+    rfl
+
+/-- joint witness for `UARTWord_roundtrip` (`h`, `hk`, `he` together): little-endian word with an odd
+    number of data bytes, parity error, the largest sub-channel the decoder keeps, into an object
+    holding another RTC time and other data -/
+example : let w : Word := ⟨.rtc 0xFFFFFFFFFFFF, true, 0x1FFF, some 3, [1, 2, 3], 1⟩
+    let t : Word := ⟨.rtc 4, false, 9, some 1, [7], 1⟩
+    Word_WF w ∧ sameKind t.ipts w.ipts ∧ t.data_endianness = w.data_endianness := by
+  simp [Word_WF, Word_Fits, Ipts_WF, sameKind]
+
+/-- joint witness for `UART_roundtrip` (`h`, `ho`, `he` together), decoder in a non-trivial prior state:
+    the theorem instantiated on the packet of the `UART_WF` example above -/
+example : ∃ b, (⟨[Word.setPayload (Word.fresh (.ptp 5 999999999) 1) [1, 2, 3],
+                  { Word.fresh (.ptp 6 0) 1 with parity_error := true, subchannel := 0x1FFF }], some 1, 1⟩ : Packet).pack = .ok b ∧
+    (Packet.unpack ⟨[Word.fresh (.ptp 0 0) 1], some 1, 1⟩ b).2 = .ok () ∧
+    (Packet.unpack ⟨[Word.fresh (.ptp 0 0) 1], some 1, 1⟩ b).1.uartwords.map (fun w => (w.ipts, w.parity_error, w.subchannel, w.payload)) =
+      [(.ptp 5 999999999, false, 0, [1, 2, 3]), (.ptp 6 0, true, 0x1FFF, [])] := by
+  obtain ⟨b, h1, h2, h3, _⟩ := UART_roundtrip_fields
+    (⟨[Word.setPayload (Word.fresh (.ptp 5 999999999) 1) [1, 2, 3],
+       { Word.fresh (.ptp 6 0) 1 with parity_error := true, subchannel := 0x1FFF }], some 1, 1⟩ : Packet)
+    ⟨[Word.fresh (.ptp 0 0) 1], some 1, 1⟩
+    (by
+      refine ⟨?_, by simp, Or.inr ⟨1, .ptp 0 0, rfl, by simp [iptsOfSource, TS_CH4, TS_IEEE1558]⟩, by simp [Word.fresh]⟩
+      intro w hw
+      simp only [List.mem_cons, List.mem_nil_iff, or_false] at hw
+      rcases hw with h | h <;> subst h <;>
+        simp [Word_WF, Word_Fits, Ipts_WF, uartProtoIpts, iptsOfSource, TS_CH4, TS_IEEE1558, sameKind, Word.fresh, Word.setPayload])
+    rfl rfl
+  exact ⟨b, h1, h2, by rw [h3]; rfl⟩
+
+/-- joint witness for `UART_append_accepted` (`h` on the `fresh`-shaped packet, `ho`, `he` together):
+    no intra-packet time stamps, big-endian, odd then even data sizes; the last word has data -/
+example : ∃ b, (([Word.setPayload (Word.fresh .none 0) [7], Word.setPayload { Word.fresh .none 0 with subchannel := 5 } [8, 9]] : List Word).foldl
+      Packet.append (Packet.fresh Option.none 0)).pack = .ok b ∧
+    (Packet.unpack ⟨[Word.fresh .none 0], Option.none, 0⟩ b).2 = .ok () ∧
+    (Packet.unpack ⟨[Word.fresh .none 0], Option.none, 0⟩ b).1.uartwords =
+      [Word.setPayload (Word.fresh .none 0) [7], Word.setPayload { Word.fresh .none 0 with subchannel := 5 } [8, 9]] := by
+  obtain ⟨b, h1, h2, h3⟩ := UART_append_accepted Option.none 0
+    [Word.setPayload (Word.fresh .none 0) [7], Word.setPayload { Word.fresh .none 0 with subchannel := 5 } [8, 9]]
+    ⟨[Word.fresh .none 0], Option.none, 0⟩
+    (by
+      refine ⟨?_, by simp, Or.inl rfl, by simp [Word.fresh, Word.setPayload]⟩
+      intro w hw
+      simp only [List.mem_cons, List.mem_nil_iff, or_false] at hw
+      rcases hw with h | h <;> subst h <;>
+        simp [Word_WF, Word_Fits, Ipts_WF, uartProtoIpts, sameKind, Word.fresh, Word.setPayload, Packet.fresh])
+    rfl rfl
+  exact ⟨b, h1, h2, by rw [h3]; rfl⟩
+
+/-- `UARTWord_even` is a statement about the helper `wordBytes`; this is the same fact about what
+    `UARTDataWord.pack` returns (time stamp included), for every word the layout can carry -/
+theorem UARTWord_even_model (w : Word) (h : Word_Fits w) (b : Bytes) (hb : w.pack = .ok b) : b.length % 2 = 0 := by
+  rw [Word_pack_eq w h] at hb
+  rw [← Except.ok.inj hb]
+  exact UARTWord_even w
+
+/-- why `UART_WF` excludes the empty list (the quantifier says counts 1..N): the encoder refuses it -/
+example : (Packet.fresh (some 0) 0).pack = .error .generic := rfl
+
 end Acra.Props.C04
